@@ -65,11 +65,22 @@ def check_state(job):
     d0, f0 = data.copy(), filt.copy()
     kw = dict(mode=c["mode"], strides=strides, multi_channel=mc)
     if st["verdict"] == "rejected":
-        try:
-            y = sp.convolve(data, filt, **kw)
-        except Exception:
-            return c, out
-        out.append((["C08"], "inadmissible_computed", "'valid' mode with neither operand covering the other in every axis was computed (shape %s) instead of rejected" % (y.shape,)))
+        # a shape combination the mode does not admit must be rejected by convolve, by BOTH adjoints and by the operators
+        # (there is no output shape for it: the adjoints are offered the shape scipy's 'valid' rule gives per axis)
+        pguess = tuple(abs(a_ - b_) + 1 for a_, b_ in zip(m, n))
+        og = gint(rs, b + ((co,) if mc else ()) + pguess)
+        for what, call in (("convolve", lambda: sp.convolve(data, filt, **kw)),
+                           ("convolve_data_adjoint", lambda: sp.convolve_data_adjoint(og, filt, dshape, **kw)),
+                           ("convolve_filter_adjoint", lambda: sp.convolve_filter_adjoint(og, data, fshape, **kw)),
+                           ("linop.ConvolveData", lambda: sp.linop.ConvolveData(list(dshape), filt, **kw)),
+                           ("linop.ConvolveFilter", lambda: sp.linop.ConvolveFilter(list(fshape), data, **kw))):
+            try:
+                with warnings.catch_warnings():
+                    warnings.simplefilter("ignore")
+                    y = call()
+            except Exception:
+                continue
+            out.append((["C08"], "inadmissible_computed", "'valid' mode with neither operand covering the other in every axis: %s returned %s instead of rejecting" % (what, getattr(y, "shape", type(y).__name__))))
         return c, out
     p = tuple(st["pshape"])
     oshape = b + ((co,) if mc else ()) + p
